@@ -35,9 +35,14 @@ for ci, c in enumerate(cases):
     w = runtime.World(datetime.datetime(2024, 1, 1))
     names = c["names"]; reads = c["reads"]
     sensors = [Fake(nm) for nm in names]
-    ref = S.BaseReader.start(sensors, c["maxlen"])
-    obj = w.actor("BaseReader")
-    via_mailbox = bool(c.get("mailbox"))
+    kind = c.get("cls", "BaseReader")
+    if kind == "BaseReader":
+        ref = S.BaseReader.start(sensors, c["maxlen"])
+    else:
+        # the two readers in use, with THEIR configuration (window length, any filtering they add)
+        ref = getattr(S, kind).start(sensors)
+    obj = w.actor(kind)
+    via_mailbox = bool(c.get("mailbox")) and kind == "BaseReader"
     for row in reads:
         for s_, v in zip(sensors, row):
             s_.value = v
@@ -45,7 +50,7 @@ for ci, c in enumerate(cases):
             ref.proxy().do_read()      # through the actor's inbox, served by the simulated scheduler
             w.settle()
         else:
-            obj.do_read()
+            S.BaseReader.do_read(obj)      # the read itself (the subclasses' do_read only adds the re-arming of the poll)
     vals = obj.values
     out.append({"keys": list(vals.keys()), "windows": [vals[nm].all() for nm in names], "means": [num(vals[nm].mean()) for nm in names]})
     w.close()
@@ -102,7 +107,14 @@ def gen_cases(rng, n):
             cols.append(col)
         reads = [[cols[k][t] for k in range(ns)] for t in range(nr)]
         names = NAMES[:ns] if rng.random() < 0.8 else ["ph", "orp", "x3", "x4"][:ns]
-        cases.append({"maxlen": maxlen, "names": names, "reads": reads, "mailbox": rng.random() < 0.15, "profiles": prof})
+        case = {"maxlen": maxlen, "names": names, "reads": reads, "mailbox": rng.random() < 0.15, "profiles": prof}
+        r_ = rng.random()
+        if r_ < 0.25:
+            # the temperature reader as configured (30 samples): temperatures in tenths of a degree incl. 0, steps, outages
+            case.update({"cls": "TemperatureReader", "maxlen": 30, "names": NAMES[:ns], "mailbox": False})
+        elif r_ < 0.35:
+            case.update({"cls": "DisinfectionReader", "maxlen": 5, "names": ["ph", "orp", "x3", "x4"][:ns], "mailbox": False})
+        cases.append(case)
     return cases
 
 
